@@ -84,8 +84,11 @@ type PairCfg struct {
 	PassiveISS   uint32 `json:"passive_iss"`
 	Chunk        int    `json:"chunk"` // 0: single view; k>0: split delivered packets into k-byte views
 	// Pad: 0 none; 46: the link pads short frames to the Ethernet minimum; other k>0: k trailing bytes on every packet
-	Pad  int     `json:"pad,omitempty"`
-	Prog Program `json:"prog"`
+	Pad int `json:"pad,omitempty"`
+	// KeepaliveMs > 0: both endpoints run TCP keep-alive with that idle time and probe
+	// interval and a budget of 4 unanswered probes; a healthy idle connection must survive it
+	KeepaliveMs int     `json:"keepalive_ms,omitempty"`
+	Prog        Program `json:"prog"`
 }
 
 // Pair is two stacks, A (active opener) and B (listener).
@@ -252,6 +255,15 @@ func (p *Pair) Establish(d time.Duration) string {
 		return "accept: " + aerr.String()
 	}
 	p.S = s
+	if p.Cfg.KeepaliveMs > 0 {
+		d := time.Duration(p.Cfg.KeepaliveMs) * time.Millisecond
+		for _, ep := range []tcpip.Endpoint{p.C.EP, p.S.EP} {
+			ep.SetSockOpt(tcpip.KeepaliveIdleOption(d))
+			ep.SetSockOpt(tcpip.KeepaliveIntervalOption(d))
+			ep.SetSockOpt(tcpip.KeepaliveCountOption(4))
+			ep.SetSockOpt(tcpip.KeepaliveEnabledOption(1))
+		}
+	}
 	for _, e := range p.W.Events() {
 		if e.Pkt.L4Kind != "tcp" {
 			continue
